@@ -85,3 +85,4 @@ def check(ctx):
                     "pooled-stack-reinitialised", "a pooled stack gets the new closure before it can run")
     ctx.must_call(SI, Call(r"generator::gen_impl::GeneratorObj::set_local_data|generator::gen_impl::GeneratorImpl::set_local_data", transitive=False), "fresh-local-attached",
                   "the fresh CoroutineLocal is attached to the (possibly recycled) stack")
+    shared.condvar_relock_keeps_guard(ctx)
